@@ -382,6 +382,10 @@ func signalByName(s string) os.Signal {
 		return os.Interrupt
 	case "SIGHUP":
 		return syscall.SIGHUP
+	case "SIGQUIT":
+		return syscall.SIGQUIT
+	case "SIGUSR1":
+		return syscall.SIGUSR1
 	default:
 		return syscall.SIGTERM
 	}
@@ -613,9 +617,14 @@ func (w *world) apply(a *Action, ds []*daemon) {
 			return
 		}
 		e.S = a.Oper
-		msg := &rtnetlink.LinkMessage{Attributes: &rtnetlink.LinkAttributes{Name: a.If, OperationalState: operState(a.Oper)}}
+		// "down+up": several messages about the interface in ONE batch, as one
+		// receive from the rtnetlink socket may return them
+		var batch []rtnetlink.Message
+		for _, op := range strings.Split(a.Oper, "+") {
+			batch = append(batch, &rtnetlink.LinkMessage{Attributes: &rtnetlink.LinkAttributes{Name: a.If, OperationalState: operState(op)}})
+		}
 		select {
-		case n.linkC <- []rtnetlink.Message{msg}:
+		case n.linkC <- batch:
 		default:
 			e.Err = "watcher not listening"
 		}
